@@ -1,6 +1,6 @@
 (* C17 — property theorems only. *)
 From Coq Require Import ZArith List Bool Arith.
-From Verif Require Import C17.Model C17.Proofs.
+From Verif Require Import C17.Model C17.Proofs C17.Proofs2.
 Import ListNotations.
 
 (* Notify consults exactly the dot-ancestors of the normalised name (joins of its leading non-empty segments), most specific last
@@ -33,6 +33,38 @@ Theorem C17_batches_nest : forall k n, enabled n = true -> level n = 0 -> batchT
   level n2 = 0 /\ curBatch n2 = [].
 Proof. exact batches_nest. Qed.
 Print Assumptions C17_batches_nest.
+
+(* ---- refinement to a registration relation (Proofs2.v). R n name t = the priority target t is registered with for name (read off
+   the by-name map); msp r ancestors t = the priority of the most specific ancestor of the name that t is registered for. ---- *)
+(* Notify calls each target at most once, and exactly the targets registered for the name or one of its dot-ancestors, each with the
+   priority of the most specific matching name - for every state of the maps, consistent or not *)
+Theorem C17_notify_reaches_exactly_the_registered : forall n name, enabled n = true -> segs name [] <> [] ->
+  NoDup (map fst (notify n name)) /\ forall t p, In (t, p) (notify n name) <-> msp (R n) (ancestors name) t = Some p.
+Proof. exact notify_exact. Qed.
+Print Assumptions C17_notify_reaches_exactly_the_registered.
+(* Register / Unregister / RegisterFromNotifier act on the relation as on a set of registrations; Unregister and the merge need the
+   consistency invariants (Inv: the by-target map lists every name of a target; KU: names are unique in the by-name map),
+   which every operation preserves *)
+Theorem C17_register_unregister_merge : forall n other t pr nms nm' t',
+  R (register isBatch n t pr nms) nm' t' = (if existsb (seq_eq nm') (clean nms) && (t' =? t) then Some pr else R n nm' t') /\
+  (Inv n -> R (unregister isBatch n t) nm' t' = if t' =? t then None else R n nm' t') /\
+  (KU other -> R (register_from n other) nm' t' = match R other nm' t' with Some x => Some x | None => R n nm' t' end) /\
+  R (reset n) nm' t' = None.
+Proof.
+  intros. split; [apply register_R|]. split; [apply unregister_R|]. split; [apply register_from_R|reflexivity].
+Qed.
+Print Assumptions C17_register_unregister_merge.
+(* every history over two notifiers (Register, RegisterFromNotifier in both directions, Unregister, SetEnabled, Reset, Start/EndBatch,
+   Notify): each Notify delivers exactly what the specification state (a registration relation and the enabled flag per notifier,
+   sstep) prescribes: nobody while disabled or for an empty name, otherwise each registered target of an ancestor once *)
+Theorem C17_every_history_refines_the_registration_set : forall ops, outs_ok (sinit, sinit) ops (run ops).
+Proof. exact history_refines. Qed.
+Print Assumptions C17_every_history_refines_the_registration_set.
+(* non-vacuity: after Register, merge and Unregister the specification prescribes a non-trivial delivery *)
+Example C17_ex_history :
+  let ops := [OReg 0 1 5%Z [[97]]; OReg 1 2 7%Z [[97; 46; 98]]; OReg 1 1 9%Z [[97; 46; 98]]; OFrom 0; OUnreg 1 1; ONotify 0 [97; 46; 98; 46; 99]; OUnreg 0 1; ONotify 0 [97; 46; 98]] in
+  run ops = [ONone; ONone; ONone; ONone; ONone; OTargets [(1, 9%Z); (2, 7%Z)]; ONone; OTargets [(2, 7%Z)]].
+Proof. vm_compute. reflexivity. Qed.
 
 (* regression: the merge that used to drop the other notifier's targets *)
 Example C17_ex_merge :
